@@ -233,7 +233,7 @@ def vpropagate (it : Item) : Nat → List (Nat × VState) → VCert → VVerdict
           | .ret _ => vpropagate it fuel work cert'
 
 def vanalyse (it : Item) : VVerdict :=
-  match vpropagate it (16 * edgeCount it) [(entryLabel it, initV it)] [] with
+  match vpropagate it (64 * edgeCount it) [(entryLabel it, initV it)] [] with
   | .reject l x v k => .reject l x v k
   | .ok cert => if varCheck it cert then .ok cert else .reject (entryLabel it) 0 0 none
 
